@@ -214,6 +214,17 @@ func Seeds() []func() *Program {
 			f.Add(e)
 			f.Add(obj("Holder", fld("kind", RefTo(e, ""))))
 		}),
+		one(func(f *File) { // enums that are empty, or hold only an explicit zero option
+			e := enumD("Shipping")
+			e.ExplicitUnspecified = true
+			f.Add(e)
+			f.Add(obj("Holder", fld("shipping", RefTo(e, ""))))
+		}),
+		one(func(f *File) { // a single first option that claims the zero slot by its suffix
+			m := enumD("Method", "KIND_UNSPECIFIED")
+			f.Add(m)
+			f.Add(obj("Holder", fld("method", RefTo(m, ""))))
+		}),
 		one(func(f *File) {
 			f.Add(obj("Foo", fld("status", InlineOf(enumD("", "ACTIVE", "INACTIVE"))), fld("inner", InlineOf(obj("", fld("deep", InlineOf(obj("", fld("z", T(TBool)))))))), fld("items", ArrayOf(InlineOf(obj("", fld("y", T(TString)))))), fld("previous", T(TString))))
 		}),
